@@ -302,10 +302,65 @@ def translate_vardecl(docs, var, gname, params, known, expect=1, members=None, u
         outs.append("Definition %s %s%s : %s :=\n  %s.\n" % (gname, "(K : Num) " if uses_K else "", " ".join("(%s : %s)" % (n, GT[s]) for n, s in sig), GT[t], g))
     return outs
 
+INT_WIDTH = {"std::size_t": 64, "size_t": 64, "unsigned long": 64, "std::uint64_t": 64, "uint64_t": 64, "unsigned long long": 64, "std::uintmax_t": 64,
+             "std::uint_fast64_t": 64, "std::uint_least64_t": 64,
+             "long": 63, "long long": 63, "std::int64_t": 63, "std::ptrdiff_t": 63, "std::ssize_t": 63,
+             "unsigned int": 32, "unsigned": 32, "std::uint32_t": 32, "uint32_t": 32, "std::uint_least32_t": 32, "std::uint_fast32_t": 64,
+             "int": 31, "std::int32_t": 31, "std::uint16_t": 16, "uint16_t": 16, "unsigned short": 16, "short": 15, "std::int16_t": 15,
+             "std::uint8_t": 8, "uint8_t": 8, "unsigned char": 8, "char": 7, "signed char": 7, "std::int8_t": 7, "bool": 1,
+             "float": 24, "double": 53, "long double": 64}
+
+def width_of_type(q):
+    """bits in which a declared type counts exactly (None: not a counter type we know, e.g. the numeric type T or a class)"""
+    q = q.replace("const ", "").replace(" const", "").replace("&", "").replace("volatile ", "").strip()
+    m = re.match(r"^std::(?:vector|array|deque|valarray)<(.*?)(?:,\s*\d+)?>$", q)
+    if m:
+        q = m.group(1).strip()
+    return INT_WIDTH.get(q)
+
+def counter_widths():
+    """the declared types of everything that counts evaluations: members of mc_result and of both accumulators, and every member, local
+    variable and parameter named *calls* in the headers the integrators are made of"""
+    seen = {}
+    def note(key, q):
+        w = width_of_type(q)
+        if w is None:
+            if q.strip() in ("T", "const T", "T const", "auto", "const auto", "auto const") or "T" == q.replace("const", "").replace("&", "").strip():
+                # a counter held in the numeric type (or deduced): exact only up to the mantissa - recorded as width 0 = unknown
+                if q.replace("const", "").replace("&", "").strip() == "T": w = 0
+                else: return
+            else:
+                return
+        seen[key] = min(seen.get(key, 999), w)
+    for hdr, flt, classes in (("hep/mc/accumulator.hpp", "hep::accumulator", ("accumulator",)), ("hep/mc/mc_result.hpp", "hep::mc_result", ("mc_result",))):
+        docs = run_clang(hdr, flt)
+        for d in docs:
+            for rec in find(d, lambda n: n.get("kind") in ("CXXRecordDecl", "ClassTemplateSpecializationDecl", "ClassTemplatePartialSpecializationDecl") and "inner" in n and n.get("name") in classes):
+                for f in rec["inner"]:
+                    if f.get("kind") == "FieldDecl" and "calls" in f.get("name", ""):
+                        note("%s::%s" % (rec["name"], f["name"]), f["type"]["qualType"])
+    for hdr in ("accumulator", "mc_helper", "mc_result", "plain", "vegas", "multi_channel", "distribution_result", "plain_result", "vegas_result", "multi_channel_result",
+                "chkpt", "callback", "multi_channel_summary"):
+        docs = run_clang("hep/mc/%s.hpp" % hdr, "hep::")
+        for d in docs:
+            for v in find(d, lambda n: n.get("kind") in ("VarDecl", "ParmVarDecl", "FieldDecl") and "calls" in n.get("name", "") and "type" in n):
+                note("%s" % v["name"], v["type"]["qualType"])
+    for hdr in ("mpi_plain", "mpi_vegas", "mpi_multi_channel", "mpi_helper"):
+        docs = run_clang("hep/mc/%s.hpp" % hdr, "hep::", mpi_flags())
+        for d in docs:
+            for v in find(d, lambda n: n.get("kind") in ("VarDecl", "ParmVarDecl", "FieldDecl") and "calls" in n.get("name", "") and "type" in n):
+                note("%s" % v["name"], v["type"]["qualType"])
+    if not any(k.startswith("mc_result::") for k in seen) or not any(k.startswith("accumulator::") for k in seen):
+        raise Unsupported("counter members of mc_result / accumulator not found")
+    rows = "; ".join('("%s"%%string, %d)' % (k, w) for k, w in sorted(seen.items()))
+    return ("(* declared width (bits counted exactly) of every member, local and parameter that counts evaluations; 0 = held in the numeric type *)\n"
+            "Definition counter_widths : list (string * Z) :=\n  [%s].\n" % rows)
+
 HEADER = """(* GENERATED by translator/cxx2gallina.py from %s/include -- do not edit.
    Regenerated on every check run; the hand-written model imports these definitions. *)
-From Coq Require Import ZArith.
+From Coq Require Import ZArith String List.
 From HepMC Require Import Num.
+Import ListNotations.
 Local Open Scope Z_scope.
 
 Definition wrap64 (z : Z) : Z := z mod 2 ^ 64.
@@ -343,6 +398,7 @@ def main(out):
     parts += translate_vardecl(cb, "rel_err_all", "rel_err_all_of", [("err_all", 'T'), ("val_all", 'T')], known, uses_K=True)
     parts += translate_vardecl(cb, "perform_more_iterations", "perform_more_iterations", [("rel_err_all", 'T')], known,
                                members=[("target_rel_err_", 'T')], uses_K=True)
+    parts.append(counter_widths())
     text = "\n".join(parts)
     with open(out, "w") as fh:
         fh.write(text)
